@@ -1,0 +1,22 @@
+//go:build verif
+
+// Contracts for deductive verification (comment-only; compiled only with -tags verif).
+package standard
+
+// ---- C18 (sequential slice of the shutdown wait): every accepted connection is counted as active before its
+// goroutine is spawned, and before any user hook runs on it. Shutdown waits for the counter to reach zero; a
+// connection counted only inside its goroutine can be missed by that wait.
+// counted: the connection accepted in this iteration has been added to the active gauge.
+//@ ghost var counted bool
+//@ func transport.serve(t) err
+//@   props C18
+//@   abstract
+//@   noinline
+//@   modifies counted
+//@   ghostset-at-entry counted = false
+//@   ghostset after Accept: counted = false
+//@   ghostset after updateActive: counted = (arg1 == 1)
+//@   assert before go: counted
+//@   ghostset after go: counted = false
+//@   loop 0:
+//@     invariant !counted
